@@ -167,6 +167,54 @@ def execute(sc, ctx):
                 nontrivial += 1
             if got != model.ref_digest(name, data):
                 ctx.violate("fobj-digest-wrong", f"chunk={chunk}:short-reads={'yes' if src.short_reads else 'no'}", f"{name} len={len(data)} reads={src.reads}")
+    # ---- route 2b (round 7): a transient read error in the middle of a seekable source ------------
+    # the call may fail; if it returns, its digest is the one a fault-free pass with the same chunking returns
+    import errno as _errno
+
+    class FlakyReader(SimReader):
+        def __init__(self, d, nth):
+            SimReader.__init__(self, d, srng, short=False)
+            self.nth, self.failed = nth, 0
+
+        def read(self, n=-1):
+            if self.reads + 1 == self.nth and not self.failed:
+                self.failed = 1
+                raise OSError(_errno.EIO, "transient read error")
+            return SimReader.read(self, n)
+
+        def seekable(self):
+            return True
+
+        def seek(self, pos, whence=0):
+            assert whence == 0
+            self.pos = pos
+            return pos
+
+    crlf = data.replace(b"\r\n", b"\n").replace(b"\n", b"\r\n")
+    cases = [(data, ch, "md5") for ch in (4096, 512, 7)]
+    if crlf != data:
+        cases += [(crlf, ch, "md5") for ch in (512, 7)]
+    if crng.random() < 0.3 and 0 < len(crlf) <= 2**20:
+        # the legacy stream only reads in chunks of 1 MiB or more: a text that needs a second chunk
+        big = crlf * ((2**20 + 2**18) // len(crlf) + 1)
+        cases.append((big, 2**20, "md5-dos2unix"))
+    for d, chunk, name in cases:
+        nth = 2 if chunk == 2**20 else crng.randint(2, 4)
+        if len(d) <= chunk * (nth - 1):
+            continue
+        ref = fobj_md5(SimReader(d, srng, short=False), chunk_size=chunk, name=name)
+        src = FlakyReader(d, nth)
+        streams += 1
+        try:
+            got = fobj_md5(src, chunk_size=chunk, name=name)
+        except OSError:
+            ctx.probe("hashing_refused_after_transient_read_error")
+            continue
+        if src.failed:
+            nontrivial += 1
+            ctx.probe("hashing_returned_after_transient_read_error")
+        if got != ref:
+            ctx.violate("fobj-digest-wrong", f"after-transient-read-error:{name}", f"chunk={chunk} nth={nth} len={len(d)}")
     # ---- route 3: legacy md5-dos2unix (input sweep; one full read) ---------
     if len(data) <= 2**20:
         for variant, d in (("as-is", data), ("lf", data.replace(b"\r\n", b"\n")), ("crlf", data.replace(b"\r\n", b"\n").replace(b"\n", b"\r\n"))):
